@@ -122,7 +122,7 @@ def parseFaults (s : String) : Option Faults :=
 def outcomeStr : Outcome → String
   | .ok => "ok" | .verr => "verr" | .perr => "perr"
 
-/-- `ts=<keyref>/<notBefore>/<notAfter>,...` (seconds relative to now, signed). -/
+/-- `ts=<keyref>/<notBefore>/<notAfter>[/<signer name number>],...` (seconds relative to now, signed). -/
 def parseTimed (rest : List String) : Option (List TimedSig) :=
   match rest.find? (fun w => w.startsWith "ts=") with
   | none => some []
@@ -133,6 +133,12 @@ def parseTimed (rest : List String) : Option (List TimedSig) :=
       let a ← a.toInt?
       let b ← b.toInt?
       some { key := k, notBefore := a, notAfter := b }
+    | [k, a, b, n] => do
+      let k ← parseRef k
+      let a ← a.toInt?
+      let b ← b.toInt?
+      let n ← n.toNat?
+      some { key := k, notBefore := a, notAfter := b, signer := n }
     | _ => none
 
 def doRun (st : State) (fs sg fl cr : String) (rest : List String := []) : State × String :=
